@@ -727,6 +727,21 @@ func (*c10) CoqCase(ci, oi any) string {
 	return fmt.Sprintf("mkCase %s %s %s", b, hx.CoqList(ops), hx.CoqList(outs))
 }
 
+// Shrink drops calls one at a time while the same oracle signature still fires.
+func (*c10) Shrink(ci any, fails func(any) bool) any {
+	c := ci.(c10Case)
+	for changed := true; changed; {
+		changed = false
+		for i := len(c.Ops) - 1; i >= 0; i-- {
+			ops := append(append([]c10Op(nil), c.Ops[:i]...), c.Ops[i+1:]...)
+			if len(ops) > 0 && fails(c10Case{Backend: c.Backend, Ops: ops}) {
+				c.Ops, changed = ops, true
+			}
+		}
+	}
+	return c
+}
+
 func (*c10) Class(ci, _ any) string {
 	c := ci.(c10Case)
 	nss := map[string]bool{}
